@@ -422,6 +422,8 @@ class CacheSim(object):
     # -- shadow bookkeeping, driven by the event log ------------------------------------
     def _on_event(self, ev):
         seq, now, slot, call, path, ino, res, size = ev
+        if res == 'EENOSPC':
+            self.probe('enospc_hit:' + call)
         if slot >= 0:
             if self._last_slot is not None and self._last_slot != slot:
                 prev = self.world.procs[self._last_slot]
@@ -567,6 +569,7 @@ class CacheSim(object):
             elif how == 'text':
                 node.data[:] = (b'this is not a pickle\n' * 50)[:max(1, int(n * frac))]
             node.mtime_ns = fs.stamp()
+            self.probe('env_entry_damaged:' + how)
             node.tag['damaged'] = True
             node.tag['sv'] = self.scanner_version
             self.world.record(-1, 'ENV:damage:' + how, path, node.ino, 'len=%d' % len(node.data))
